@@ -69,7 +69,7 @@ def plan(tier):
 def setup_worker(ctx):
     warnings.simplefilter('ignore')
     ctx.state['reach'] = Reach(REACH).start()
-    ctx.state['inv'] = CIMIntInvariant().start()
+    ctx.state['inv'] = CIMIntInvariant(ctx).start()
     ctx.state['tp'] = TupleParser()
 
 
